@@ -105,7 +105,7 @@ func c06Gen(r *driver.Rand, thorough bool) *driver.Plan {
 	case "Emit":
 		p.IntervalMs = driver.Pick(r, 1, 10, 1000)
 	case "Join":
-		k := driver.Pick(r, 0, 1, 2, 3, 5)
+		k := driver.Pick(r, 0, 1, 2, 3, 5, 9, 17)
 		p.Inputs = nil
 		p.InCaps = nil
 		for i := 0; i < k; i++ {
@@ -211,7 +211,7 @@ func c06Build(e *driver.Env) {
 func joinOnline(s *Sys, clause string) func(i, v int) {
 	next := map[int]int{}
 	return func(i, v int) {
-		in := v/1000 - 1
+		in := v / 1000
 		idx := v % 1000
 		if in < 0 || in >= len(s.P.Inputs) || idx >= len(s.P.Inputs[in]) || s.P.Inputs[in][idx] != v {
 			s.E.Failf(clause, "Join delivered an element that no input contains", "Join delivered %d; inputs %v", v, s.P.Inputs)
